@@ -189,7 +189,13 @@ class FormulaTransformer(m.MatcherDecoratableTransformer):
 
         n_to_s = self.name_to_symbol[i]
         while n_to_s is None:
-            i -= 1
+            # Inlined comprehension (PEP 709) has no symbol table of its own.
+            # Its targets are local to it,
+            # other names resolve in the enclosing scope.
+            if any(a.scope is scope for a in scope[node.value]):
+                return False
+            scope = scope.parent
+            i = next(i for i, v in enumerate(self.scopes) if scope == v)
             n_to_s = self.name_to_symbol[i]
 
         symbol = n_to_s.get(node.value, None)
